@@ -76,6 +76,7 @@ type Mismatch struct {
 	Expected interface{} `json:"expected"`
 	Observed interface{} `json:"observed"`
 	Rec      *Rec        `json:"record,omitempty"`
+	RawHex   []string    `json:"rawhex,omitempty"`
 }
 
 // foreign bytes standing for the model's single OTHER symbol '#'
